@@ -144,7 +144,7 @@ func runC01(o *opts) error {
 	r.stats["sweep-filters"] = nsweep
 
 	// random datasets x typed random filters
-	ndatasets, perDataset := 110, 14
+	ndatasets, perDataset := 150, 20
 	if o.thorough() {
 		ndatasets, perDataset = 1500, 40
 	}
